@@ -14,6 +14,7 @@ mod judge;
 mod minimise;
 mod prng;
 mod render;
+mod selftest;
 mod sched;
 mod spec;
 mod target;
@@ -95,6 +96,16 @@ fn main() {
                 }
             }
         }
+        "selftest" => match args.get(2).map(String::as_str) {
+            Some("determinism") => {
+                let n = args.get(3).and_then(|s| s.parse().ok()).unwrap_or(400);
+                selftest::determinism(n)
+            }
+            _ => {
+                eprintln!("usage: vrl-sim selftest determinism [n_sessions]");
+                std::process::exit(2);
+            }
+        },
         "corpus" => {
             for (name, cs) in [("A", corpus::corpus_a()), ("B", corpus::corpus_b()), ("C", corpus::corpus_c())] {
                 let comparable = cs.iter().filter(|c| c.comparable()).count();
